@@ -2,11 +2,14 @@ package main
 
 import (
 	"bytes"
+	"encoding/json"
 	"fmt"
 	"net"
+	"os"
 	"strings"
 	"sync"
 	"sync/atomic"
+	"time"
 )
 
 // the model evaluates a late-reader download in several seconds and gigabytes: a few per run
@@ -193,6 +196,7 @@ func genTCPConn(r *Rng, cfg []cfgKey, focus string) tcpConnSpec {
 	if sp.Kind != "honest" || sp.Corrupt != 0 || !sp.ConnectOK || sp.TFinFirst || sp.Fin || sp.CReset || sp.AKind == 9 || (sp.AKind >= 20 && sp.AKind < 30 && sp.AKind != 21) || (sp.Validate && !tcpKindPublic(sp.AKind)) || sp.C < 0 {
 		sp.TLate = [2]int{}
 	}
+	sp.Key = fmt.Sprintf("%d/%d", sp.C, sp.S) // the key actually used (a wrong-key / other-cipher probe changed it): a spec reloaded from JSON runs the same connection
 	return sp
 }
 
@@ -275,6 +279,119 @@ func tcpFailingTarget(ctx *Ctx) {
 	}
 }
 
+type tcpJob struct {
+	spec tcpCaseSpec
+	obs  []tcpObs
+}
+
+// tcpJobReport: counts, monitors and the Coq case term of one executed case.
+func tcpJobReport(ctx *Ctx, prop string, j *tcpJob, classes map[string]bool) string {
+	var ct, ot []string
+	seenSalt := map[string]bool{}
+	for i := range j.spec.Conns {
+		sp := &j.spec.Conns[i]
+		ob := &j.obs[i]
+		ct = append(ct, tcpConnTerm(sp, ob.Port))
+		ot = append(ot, tcpObsTerm(ob))
+		ctx.Count("status:" + ob.Status)
+		ctx.Count(fmt.Sprintf("close:%d", ob.Close))
+		ctx.Count("kind:" + sp.Kind)
+		ctx.Count(fmt.Sprintf("akind:%d", sp.AKind))
+		if sp.SlowStartMs > 0 {
+			ctx.Count("late-reader-large-download")
+		}
+		if sp.LateByte {
+			ctx.Count("probe-with-late-last-byte")
+		}
+		classes[ob.Status] = true
+		ctx.NonTrivial(fmt.Sprintf("%+v", *sp))
+		tcpMonitors(ctx, prop, &j.spec, i, sp, ob, seenSalt)
+	}
+	ctx.Stats.Cases++
+	return fmt.Sprintf("{| c_cfg := %s; c_cap := %s; c_conns := %s; c_obs := %s |}",
+		cfgTerm(j.spec.Cfg), cZ(int64(j.spec.Cap)), cListT("conn", ct), cListT("cobs", ot))
+}
+
+// stallWatch: a goroutine that sleeps 20 ms at a time and notes when it woke up more than 150 ms
+// late: the process (or the whole machine) was not running meanwhile. Independent of any outcome.
+var stallMu sync.Mutex
+var stallTimes []time.Time
+var stallOnce sync.Once
+
+func startStallWatch() {
+	stallOnce.Do(func() {
+		go func() {
+			last := time.Now()
+			for {
+				time.Sleep(20 * time.Millisecond)
+				now := time.Now()
+				if now.Sub(last) > 170*time.Millisecond {
+					stallMu.Lock()
+					stallTimes = append(stallTimes, now)
+					stallMu.Unlock()
+				}
+				last = now
+			}
+		}()
+	})
+}
+
+func stalledSince(t0 time.Time) bool {
+	time.Sleep(25 * time.Millisecond) // let the watch goroutine note a stall that has just ended
+	stallMu.Lock()
+	defer stallMu.Unlock()
+	for _, t := range stallTimes {
+		if t.After(t0) {
+			return true
+		}
+	}
+	return false
+}
+
+// tcpWarmUp runs one plain connection whose outcome is not recorded, before the cases start in
+// parallel: the code paths of the handler, the SDK and the harness have then been executed (and
+// paged in) once, so that the first batch of timed connections does not pay for that.
+func tcpWarmUp() {
+	cs := tcpCaseSpec{Cfg: []cfgKey{{0, 0, 0}}, Conns: []tcpConnSpec{{Kind: "honest", ConnectOK: true, Fin: true, Seed: 12345,
+		Key: "0/0", Chunks: [][2]int{{100, 1}}, TOut: [2]int{100, 2}}}}
+	runTCPCase(&cs)
+}
+
+// cTCPConfirm re-runs, one at a time on an otherwise idle harness, the cases listed in the file
+// (specs exactly as the first run printed them into stats.json "case_index"). Case k of the list is
+// written to cases_<k>.v; monitor findings carry the job number of the spec. ./check uses it to tell
+// a deviation that belongs to the connection (it recurs) from one that belonged to the moment.
+func cTCPConfirm(ctx *Ctx, prop string, file string) {
+	ctx.Stats.Rule = "confirmation run: the listed cases of the first run, re-run one at a time"
+	data, err := os.ReadFile(file)
+	if err != nil {
+		panic(err)
+	}
+	var specs []tcpCaseSpec
+	if err := json.Unmarshal(data, &specs); err != nil {
+		panic(err)
+	}
+	tcpWarmUp()
+	startStallWatch()
+	classes := map[string]bool{}
+	for k := range specs {
+		j := &tcpJob{spec: specs[k]}
+		for i := range j.spec.Conns {
+			c := &j.spec.Conns[i]
+			fmt.Sscanf(c.Key, "%d/%d", &c.C, &c.S)
+		}
+		for try := 0; ; try++ {
+			t0 := time.Now()
+			j.obs = runTCPCase(&j.spec)
+			if try >= 3 || !stalledSince(t0) {
+				break
+			}
+			ctx.Count("case-rerun-after-measured-stall")
+		}
+		ctx.WriteCases(k, "Corr.TCP", "case", []string{tcpJobReport(ctx, prop, j, classes)})
+	}
+}
+
 // cTCPInto runs n TCP cases (0 = the tier's default) and numbers its case files from shard0.
 func cTCPInto(ctx *Ctx, prop string, nCases int, shard0 int) {
 	r := ctx.Rng
@@ -286,11 +403,7 @@ func cTCPInto(ctx *Ctx, prop string, nCases int, shard0 int) {
 	if nCases > 0 {
 		n = nCases
 	}
-	type job struct {
-		spec tcpCaseSpec
-		obs  []tcpObs
-	}
-	jobs := make([]*job, n)
+	jobs := make([]*tcpJob, n)
 	for i := range jobs {
 		nkeys := []int{1, 2, 5, 10}[r.Intn(4)]
 		cfg := genCfg(r, nkeys, nkeys+2)
@@ -306,17 +419,34 @@ func cTCPInto(ctx *Ctx, prop string, nCases int, shard0 int) {
 			}
 			cs.Conns = append(cs.Conns, sp)
 		}
-		jobs[i] = &job{spec: cs}
+		jobs[i] = &tcpJob{spec: cs}
 	}
+	for i, j := range jobs {
+		j.spec.Job = i
+		b, _ := json.Marshal(j.spec)
+		ctx.Stats.CaseIndex = append(ctx.Stats.CaseIndex, b)
+	}
+	ctx.Stats.Extra["tcp_shard0"] = shard0
+	tcpWarmUp()
+	startStallWatch()
 	var wg sync.WaitGroup
 	sem := make(chan struct{}, 24)
 	for _, j := range jobs {
 		wg.Add(1)
 		sem <- struct{}{}
-		go func(j *job) {
+		go func(j *tcpJob) {
 			defer wg.Done()
 			defer func() { <-sem }()
-			j.obs = runTCPCase(&j.spec)
+			// a case during which this process was not scheduled for a while (measured, see
+			// stallWatch) has timing classes that describe the machine: it is run again
+			for try := 0; ; try++ {
+				t0 := time.Now()
+				j.obs = runTCPCase(&j.spec)
+				if try >= 3 || !stalledSince(t0) {
+					break
+				}
+				ctx.Count("case-rerun-after-measured-stall")
+			}
 		}(j)
 	}
 	wg.Wait()
@@ -324,30 +454,7 @@ func cTCPInto(ctx *Ctx, prop string, nCases int, shard0 int) {
 	shard := shard0
 	classes := map[string]bool{}
 	for ji, j := range jobs {
-		var ct, ot []string
-		seenSalt := map[string]bool{}
-		for i := range j.spec.Conns {
-			sp := &j.spec.Conns[i]
-			ob := &j.obs[i]
-			ct = append(ct, tcpConnTerm(sp, ob.Port))
-			ot = append(ot, tcpObsTerm(ob))
-			ctx.Count("status:" + ob.Status)
-			ctx.Count(fmt.Sprintf("close:%d", ob.Close))
-			ctx.Count("kind:" + sp.Kind)
-			ctx.Count(fmt.Sprintf("akind:%d", sp.AKind))
-			if sp.SlowStartMs > 0 {
-				ctx.Count("late-reader-large-download")
-			}
-			if sp.LateByte {
-				ctx.Count("probe-with-late-last-byte")
-			}
-			classes[ob.Status] = true
-			ctx.NonTrivial(fmt.Sprintf("%+v", *sp))
-			tcpMonitors(ctx, prop, &j.spec, i, sp, ob, seenSalt)
-		}
-		terms = append(terms, fmt.Sprintf("{| c_cfg := %s; c_cap := %s; c_conns := %s; c_obs := %s |}",
-			cfgTerm(j.spec.Cfg), cZ(int64(j.spec.Cap)), cListT("conn", ct), cListT("cobs", ot)))
-		ctx.Stats.Cases++
+		terms = append(terms, tcpJobReport(ctx, prop, j, classes))
 		if ji < 2 {
 			ctx.Sample(map[string]interface{}{"spec": j.spec, "obs": j.obs})
 		}
@@ -383,7 +490,7 @@ func cTCPInto(ctx *Ctx, prop string, nCases int, shard0 int) {
 
 // tcpMonitors: the properties themselves, evaluated on the implementation's observables.
 func tcpMonitors(ctx *Ctx, prop string, cs *tcpCaseSpec, i int, sp *tcpConnSpec, ob *tcpObs, seenSalt map[string]bool) {
-	rep := map[string]interface{}{"case": cs, "conn": i, "obs": ob}
+	rep := map[string]interface{}{"case": cs, "conn": i, "obs": ob, "job": cs.Job}
 	if ob.Panic != "" {
 		ctx.Monitor(prop+"/handler-panic-or-harness-failure", ob.Panic, rep)
 		return
